@@ -341,7 +341,7 @@ static inline const char *flatcc_json_parser_symbol_end(flatcc_json_parser_t *ct
 
 #if FLATCC_JSON_PARSE_ALLOW_UNQUOTED
     if (ctx->unquoted) {
-        while (buf != end && *buf > 0x20) {
+        while (buf != end && (unsigned char)*buf > 0x20) {
             clast = c = *buf;
             if (c == '_' || c == '.' || (c & 0x80) || (c >= '0' && c <= '9')) {
                 ++buf;
@@ -507,7 +507,7 @@ static inline const char *flatcc_json_parser_match_symbol(flatcc_json_parser_t *
     }
 #if FLATCC_JSON_PARSE_ALLOW_UNQUOTED
     if (ctx->unquoted) {
-        if (buf[pos] > 0x20 && buf[pos] != ':') {
+        if ((unsigned char)buf[pos] > 0x20 && buf[pos] != ':') {
             return mark;
         }
         buf += pos;
